@@ -133,10 +133,11 @@ theorem malformed_iq_ends_session (s : St) (st : Stanza) (hd : s.dead = false)
 
 /-- operations that end the session without the possibility of resumption -/
 def NonResumableEnd (op : Op) : Prop :=
-  op = .sessionClosed false ∨ op = .sessionOpened false ∨ op = .destroy
+  op = .sessionClosed false ∨ (∃ smEnabled, op = .sessionOpened false smEnabled) ∨ op = .destroy
 
 /-- **Nothing pending after a non-resumable end.** After a session closed that cannot resume, a
-session opened without resumption, or destruction of the client, the table is empty and every
+session opened without resumption (whether or not stream management is enabled on the new session),
+or destruction of the client, the table is empty and every
 request ever issued has completed exactly once. -/
 theorem iq_no_pending_after_nonresumable_end (own : String) (sock sm : Bool) (ops : List Op) (op : Op)
     (hop : NonResumableEnd op) :
@@ -150,7 +151,7 @@ theorem iq_no_pending_after_nonresumable_end (own : String) (sock sm : Bool) (op
     unfold step
     split
     · rename_i hdead; exact hde hdead
-    · rcases hop with h | h | h <;> subst h <;> simp [cancelAll]
+    · rcases hop with h | ⟨e, h⟩ | h <;> subst h <;> simp [cancelAll]
   refine ⟨hempty, ?_⟩
   intro q hq
   have h := reachable_inv own sock sm (ops ++ [op])
@@ -168,9 +169,9 @@ theorem iq_retained_only_if_resumable (s : St) (c : Bool) (hd : s.dead = false)
 
 /-- … and a resumable close or a resumed session keeps every pending request and completes none
 (the close only switches stream management off until it is re-enabled). -/
-theorem resumable_end_keeps_everything (s : St) (hd : s.dead = false) :
+theorem resumable_end_keeps_everything (s : St) (smEnabled : Bool) (hd : s.dead = false) :
     step s (.sessionClosed true) = ({ s with sm := false }, []) ∧
-    step s (.sessionOpened true) = (s, []) := by
+    step s (.sessionOpened true smEnabled) = (s, []) := by
   simp [step, hd]
 
 /-- **Eventually.** A request pending after any history `pre` is completed by any continuation
@@ -195,6 +196,55 @@ theorem iq_eventually_exactly_once (own : String) (sock sm : Bool) (pre suffix :
     rw [run_append]; simp only [reqs_append]; exact List.mem_append.mpr (Or.inr h1)
   have h4 := List.count_pos_iff.mpr h3
   omega
+
+/-! ### Session boundaries as the real negotiation produces them (`Neg`) -/
+
+/-- **A session that is not a resumption leaves nothing pending** — whatever the server granted
+instead: a new session with stream management (resumable or not) or one without.  (Seeded change
+"cancel only if stream management is off on the new session" breaks exactly this.) -/
+theorem neg_new_session_leaves_nothing_pending (s : Neg.St) (sm resumableNew : Bool)
+    (hd : s.base.dead = false) :
+    (Neg.step s (.connect sm resumableNew false)).1.base.tbl = [] := by
+  cases sm <;> simp [Neg.step, run, step, hd, cancelAll]
+
+/-- **A genuine resumption keeps every pending request and completes none.** -/
+theorem neg_resumption_retains (s : Neg.St) (resumableNew : Bool) (hd : s.base.dead = false) :
+    (Neg.step s (.connect true resumableNew true)).1.base.tbl = s.base.tbl ∧
+    (Neg.step s (.connect true resumableNew true)).2 = [] := by
+  simp [Neg.step, run, step, hd]
+
+/-- **An orderly disconnect leaves nothing pending.** -/
+theorem neg_disconnect_leaves_nothing_pending (s : Neg.St) (hd : s.base.dead = false) :
+    (Neg.step s .disconnect).1.base.tbl = [] := by
+  simp [Neg.step, run, step, hd, cancelAll]
+
+/-- **Connection loss — partial.** Full statement (false today, see the defect below): "after the loss
+of a session that cannot be resumed — established without stream management, or with
+`<enabled/>` lacking `resume` — nothing is pending".  Proved: it holds whenever the client does not
+*believe* it can resume (`canResume = false`); what is missing is that the belief is always right. -/
+theorem neg_loss_leaves_nothing_pending_partial (s : Neg.St) (hd : s.base.dead = false)
+    (hc : s.canResume = false) : (Neg.step s .loss).1.base.tbl = [] := by
+  simp [Neg.step, run, step, hd, hc, cancelAll]
+
+/-- … and a loss the client believes resumable keeps everything. -/
+theorem neg_resumable_loss_retains (s : Neg.St) (hd : s.base.dead = false)
+    (hc : s.canResume = true) :
+    (Neg.step s .loss).1.base.tbl = s.base.tbl ∧ (Neg.step s .loss).2 = [] := by
+  simp [Neg.step, run, step, hd, hc]
+
+/-- **Defect in today's code: a stale "can resume".** `C2sStreamManager::m_canResume` is set by
+`<enabled resume='true'/>` and cleared only by an orderly close; a later session established
+WITHOUT stream management does not clear it.  When that later session is lost, the client still
+reports `smCanResume = true`, and requests issued on it stay pending although their session cannot
+be resumed (they complete only at the next session start).  Witness: resumable SM session, loss,
+new session on a server without stream management, one request, loss. -/
+theorem C07_defect_stale_resumable_after_nosm_session :
+    ¬ (∀ (own : String) (pre : List Neg.Op) (sends : List (Id × String)),
+        (Neg.run (Neg.init own)
+          (pre ++ [.connect false false false] ++ sends.map (fun p => .base (.send p.1 p.2)) ++ [.loss])).1.base.tbl = []) := by
+  intro h
+  have := h "me@own.org" [.connect true true false, .loss] [(.named "a", "bob@rem.org/r")]
+  exact absurd this (by decide)
 
 /-! ### Archive retrieval (`QXmppMamManager::retrieveMessages`) -/
 
@@ -303,7 +353,7 @@ example : (run (init "me@own.org" false true) [.send (.named "a") "bob@rem.org/r
     = [⟨.named "a", "bob@rem.org/r", 0⟩] := by decide
 -- a used or empty id is replaced by a generated one; both requests stay distinguishable
 example : (run (init "me@own.org" false true)
-    [.send (.named "a") "x@y", .send (.named "a") "x@y", .send (.named "") "x@y", .sessionClosed true, .sessionOpened false]).2
+    [.send (.named "a") "x@y", .send (.named "a") "x@y", .send (.named "") "x@y", .sessionClosed true, .sessionOpened false true]).2
     = [⟨0, .named "a", .cancelled⟩, ⟨1, .gen 0, .cancelled⟩, ⟨2, .gen 1, .cancelled⟩] := by decide
 -- `start` refuses (raw entry point): empty id, id in use, empty addressee
 example : (run (init "" false true)
@@ -327,6 +377,16 @@ example : (run (init "me@own.org" false true)
 example : (run (init "me@own.org" true false)
     [.send (.named "a") "x@y", .recv ⟨.iq, .other, .named "zz", "eve@evil.org"⟩]).2
     = [⟨0, .named "a", .cancelled⟩] := by decide
+-- negotiated boundaries: refused resumption with a new SM session cancels; a genuine resumption retains
+example : (Neg.run (Neg.init "me@own.org")
+    [.connect true true false, .base (.send (.named "a") "bob@rem.org/r"), .loss, .connect true true true,
+     .loss, .connect true true false]).2 = [⟨0, .named "a", .cancelled⟩] := by decide
+example : (Neg.run (Neg.init "me@own.org")
+    [.connect true true false, .base (.send (.named "a") "bob@rem.org/r"), .loss, .connect true true true]).1.base.tbl
+    = [⟨.named "a", "bob@rem.org/r", 0⟩] := by decide
+-- hypotheses of the partial loss theorem / of the defect: canResume false resp. stale true
+example : (Neg.run (Neg.init "me@own.org") [.connect false false false]).1.canResume = false
+    ∧ (Neg.run (Neg.init "me@own.org") [.connect true true false, .loss, .connect false false false]).1.canResume = true := by decide
 -- archive retrieval: the former defect witness (empty page, e2ee), a page with a deferred decryption, no e2ee
 example : (Mam.run (Mam.init true false) [.start, .iqResult]).1.answered = true
     ∧ (Mam.run (Mam.init true false) [.start, .iqResult]).1.waiting = []
